@@ -84,7 +84,7 @@ Parts(lb) == {lb.c} \cup ({lb.d} \ {0})
 \* which property owns the "same result as std::vector" predicate for this call
 ValueOwner(lb, exp, r) ==
   IF lb.k > 0 /\ r.k = "exc" /\ r.s \in {"injected", "bad_alloc"} THEN {"C09"}
-  ELSE IF lb.op = "swap2" THEN {"C13"}
+  ELSE IF lb.op = "swap2" THEN (IF exp.ret.k = "exc" THEN {"C13", "C08"} ELSE {"C13"})      \* (an impossible exchange is a limit error)
   ELSE IF lb.src > 0 THEN {"C10", "C01"}      \* (a call whose argument is an own element is also one of C01's calls)
   ELSE IF exp.ret.k = "exc" THEN {"C08"}
   ELSE IF lb.op = "relocate" THEN {"C14"}
@@ -415,7 +415,7 @@ TOp ==
                                                   \cup (IF \E x \in Parts(lb) : gh[x].reloc THEN {"C14"} ELSE {}), l, c02Fail) ELSE v1
          v3 == IF c06Fail # "" THEN AddViol(v2, {"C06"} \cup limitErr \cup (IF faulted THEN {"C09"} ELSE {}) \cup (IF lb.op = "swap2" THEN {"C13"} ELSE {}), l, c06Fail) ELSE v2
          v4 == IF c05Fail # "" THEN AddViol(v3, {"C05"}, l, c05Fail) ELSE v3
-         v5 == IF c07Fail # "" THEN AddViol(v4, {"C07"}, l, c07Fail) ELSE v4
+         v5 == IF c07Fail # "" THEN AddViol(v4, {"C07"} \cup (IF lb.op = "swap2" THEN {"C13"} ELSE {}), l, c07Fail) ELSE v4
          v6 == IF c18Fail # "" THEN AddViol(v5, {"C18"}, l, c18Fail) ELSE v5
          v7 == IF c20Fail # "" THEN AddViol(v6, {"C20"}, l, c20Fail) ELSE v6
      IN
